@@ -595,7 +595,7 @@ def doc_rejection(o):
     return o[1] == 'syntax-error' or (o[1] == 'SyntaxError' and 'no longer supported' in o[2])
 
 
-def base_v1(R, rng, tier, res, pend, case0, only, H):
+def base_v1(R, rng, tier, res, pend, case0, H):
     run_nutils = H['run_nutils']
     tree = None
     for attempt in range(6):
